@@ -6,6 +6,7 @@ package interp
 import (
 	"fmt"
 	"go/types"
+	"path/filepath"
 	"strconv"
 	"strings"
 )
@@ -227,6 +228,16 @@ func (x *Explorer) event(kind string, args []value) {
 func lookupExternal(name string) externalFn {
 	if ext := externals[name]; ext != nil {
 		return ext
+	}
+	if strings.HasSuffix(name, "/zzkb.StepLog") {
+		return func(fr *frame, args []value) value {
+			d := readImage(filepath.Join(fr.i.prep.KBDir, args[0].(string)+".json"))
+			out := []value{}
+			for _, s := range d.Steps {
+				out = append(out, s)
+			}
+			return out
+		}
 	}
 	if strings.HasSuffix(name, "/zzkb.LoadLibrary") {
 		return func(fr *frame, args []value) value {
